@@ -191,7 +191,9 @@ class Gen:
 
     def g_for(self, ind, depth, scope):
         r = self.r
-        it = r.choice(["it_list", "it_tuple", "it_str", "it_empty", "it_gen()", "range(%d)" % r.randint(0, 4), "it_one"])
+        it = r.choice(["it_list", "it_tuple", "it_str", "it_empty", "it_gen()", "range(%d)" % r.randint(0, 4), "it_one",
+                       # iterables whose text holds colons, brackets and a lambda (the line ends in a colon of its own)
+                       "it_list[1:]", "it_tuple[::2]", "{'p': 1, 'q': 2}", "sorted(it_list, key=lambda v: -v)", "'a:b'"])
         var = "x%d" % self.uid()
         use_loop = r.random() < 0.6
         target = var
@@ -199,7 +201,7 @@ class Gen:
             target = "(%s)" % var  # parenthesised target
         self.ctl("for %s in %s:" % (target, it))
         sized = not it.startswith("it_gen")
-        sub = dict(scope, vars=scope["vars"] + ([var] if it != "it_str" else []), inloop=True)
+        sub = dict(scope, vars=scope["vars"] + ([var] if it not in ("it_str", "'a:b'", "{'p': 1, 'q': 2}") else []), inloop=True)
         if use_loop:
             self.uses_loop = True
             self.p(ind, "LS.append(LR(%s, LS[-1] if LS else None))" % it)
